@@ -13,6 +13,20 @@ CHECKS = {
         note="Trusts the reference interpreter (harness/src/model/interp.rs) and its calibration list (evidence.assumptions); trusts rustc's f64 formatting, shared by both sides.",
         design="DESIGN.md §4 C01",
     ),
+    "C02": dict(
+        engine="reclaim",
+        technique="runtime monitoring + sanitizer: differential execution (reclamation on/off) on the debug build with poison fills, and AddressSanitizer with arena/pool lifetimes exported through hooks (manual poisoning, plus a quarantine mode)",
+        text="Held on N generated programs: (a) outputs and ending with the frame arena and pool recycling active equal those with reclamation off, on the debug build where freed memory is filled with 0xDD; (b) under AddressSanitizer every byte of the arenas that is not currently handed out is poisoned, so a read or write of reclaimed memory traps at the instruction, independent of whether the bytes are printed; (c) the same with quarantine, where reclaimed memory is never re-issued, closing the free/re-issue/stale-read gap. The evidence reports how many frame resets, pool returns and free-list reuses the sample actually produced.",
+        note="Trusts the hooks' poison bookkeeping (src/verif.rs, bump.rs, pool.rs under cfg(feature=verif)); std is not instrumented in the ASan build.",
+        design="DESIGN.md §4 C02",
+    ),
+    "C03": dict(
+        engine="prune",
+        technique="runtime monitoring: differential execution with and without the optimisation plan plus an online check on hooked statement ids (executed must be a subset of reachable)",
+        text="Held on N generated programs biased towards dead stores, unused variables, code after return/comot/next, callees that read or conditionally write captured variables and operations that fail at run time in unused positions: outputs and ending with pruning equal those without, and no statement the reachability analysis calls unreachable was executed in the unpruned run. The evidence counts statements actually skipped at run time.",
+        note="Same interpreter on both sides; trusts the statement-id hook in exec_block_with_flow.",
+        design="DESIGN.md §4 C03",
+    ),
     "C04": dict(
         engine="sem",
         technique="runtime monitoring: generated scope-heavy programs with site-unique values against a reference interpreter with real lexical closures",
